@@ -24,10 +24,13 @@ struct Cfg {
     kinds: Vec<String>,
     variants: Vec<String>,
     unwind: Option<usize>,
+    /// (variant, rule, finding id): harnesses expected to fail (known findings)
+    known: Vec<(String, String, String)>,
+    kinds_given: bool,
 }
 
 fn header(text: &str) -> Cfg {
-    let mut c = Cfg { alphabet: "abx".into(), n: (3, 4), entries: None, kinds: vec!["c01".into()], variants: vec![], unwind: None };
+    let mut c = Cfg { alphabet: "abx".into(), n: (3, 4), entries: None, kinds: vec!["c01".into()], variants: vec![], unwind: None, known: vec![], kinds_given: false };
     for l in text.lines() {
         let l = l.trim();
         if let Some(r) = l.strip_prefix("//! alphabet:") {
@@ -40,8 +43,12 @@ fn header(text: &str) -> Cfg {
             c.entries = Some(r.split_whitespace().map(String::from).collect());
         } else if let Some(r) = l.strip_prefix("//! kinds:") {
             c.kinds = r.split_whitespace().map(String::from).collect();
+            c.kinds_given = true;
         } else if let Some(r) = l.strip_prefix("//! variants:") {
             c.variants = r.split_whitespace().map(String::from).collect();
+        } else if let Some(r) = l.strip_prefix("//! known:") {
+            let v: Vec<String> = r.split_whitespace().map(String::from).collect();
+            c.known.push((v[0].clone(), v[1].clone(), v[2].clone()));
         } else if let Some(r) = l.strip_prefix("//! unwind:") {
             c.unwind = Some(r.trim().parse().unwrap());
         }
@@ -57,6 +64,11 @@ struct Gen<'a> {
     has_comment: bool,
 }
 
+/// the skip expression is only named where skipping can be on (a statically atomic context never skips;
+/// this also keeps the skip rules' own aliases acyclic)
+fn sk(s: &str) -> &'static str {
+    if s == "0" { "REmpty" } else { "SK" }
+}
 fn rust_str(s: &str) -> String {
     format!("{:?}", s)
 }
@@ -77,12 +89,12 @@ impl<'a> Gen<'a> {
     fn seq(&mut self, items: Vec<String>, s: &str) -> String {
         match items.len() {
             1 => items[0].clone(),
-            2 | 3 | 4 | 5 | 6 | 13 => format!("RSeq{}<SK, {}, {}>", items.len(), s, items.join(", ")),
+            2 | 3 | 4 | 5 | 6 | 13 => format!("RSeq{}<{}, {}, {}>", items.len(), sk(s), s, items.join(", ")),
             _ => {
                 // nest: first ~ (rest)
                 let first = items[0].clone();
                 let rest = self.seq(items[1..].to_vec(), s);
-                format!("RSeq2<SK, {}, {}, {}>", s, first, rest)
+                format!("RSeq2<{}, {}, {}, {}>", sk(s), s, first, rest)
             }
         }
     }
@@ -135,11 +147,11 @@ impl<'a> Gen<'a> {
                 self.choice(items)
             }
             Expr::Opt(x) => format!("ROpt<{}>", self.expr(x, s)),
-            Expr::Rep(x) => format!("RRep<SK, {}, {}, 0, {{ usize::MAX }}>", s, self.expr(x, s)),
+            Expr::Rep(x) => format!("RRep<{}, {}, {}, 0, {{ usize::MAX }}>", sk(s), s, self.expr(x, s)),
             // pest defines e+ as e ~ e* (optimizer::unroller), including the implicit skip between the two
             Expr::RepOnce(x) => {
                 let a = self.expr(x, s);
-                let b = format!("RRep<SK, {}, {}, 0, {{ usize::MAX }}>", s, self.expr(x, s));
+                let b = format!("RRep<{}, {}, {}, 0, {{ usize::MAX }}>", sk(s), s, self.expr(x, s));
                 self.seq(vec![a, b], s)
             }
             Expr::RepExact(x, n) => {
@@ -148,7 +160,7 @@ impl<'a> Gen<'a> {
             }
             Expr::RepMin(x, n) => {
                 let mut items: Vec<String> = (0..*n).map(|_| self.expr(x, s)).collect();
-                items.push(format!("RRep<SK, {}, {}, 0, {{ usize::MAX }}>", s, self.expr(x, s)));
+                items.push(format!("RRep<{}, {}, {}, 0, {{ usize::MAX }}>", sk(s), s, self.expr(x, s)));
                 self.seq(items, s)
             }
             Expr::RepMax(x, n) => {
@@ -321,12 +333,16 @@ fn generate(name: &str, text: &str) -> String {
         let e = g.expr(&r.expr, s);
         writeln!(body, "    pub type r_{}<const INH: usize> = RRule<{}, {}, {}>;", r.name, id, kind, e).unwrap();
     }
-    writeln!(o, "pub mod reference {{\n    use crate::refpeg::*;\n    use pest_typed::StringWrapper;").unwrap();
-    for w in &g.wrappers {
-        writeln!(o, "    {}", w).unwrap();
+    let compile_only = matches!(&cfg.entries, Some(l) if l.is_empty());
+    if !compile_only {
+        // (a recursive grammar cannot be expressed as reference type aliases; such grammars are compile-only)
+        writeln!(o, "pub mod reference {{\n    use crate::refpeg::*;\n    use pest_typed::StringWrapper;").unwrap();
+        for w in &g.wrappers {
+            writeln!(o, "    {}", w).unwrap();
+        }
+        o.push_str(&body);
+        writeln!(o, "}}").unwrap();
     }
-    o.push_str(&body);
-    writeln!(o, "}}").unwrap();
     // ---- rule ids
     writeln!(o, "pub const RULE_NAMES: &[&str] = &[\"EOI\"{}];", rules.iter().map(|r| format!(", {:?}", r.name)).collect::<String>()).unwrap();
     for v in &variants {
@@ -374,26 +390,47 @@ fn generate(name: &str, text: &str) -> String {
         for r in &entries {
             for k in &cfg.kinds {
                 for v in &variants {
-                    let (vtag, vdesc) = if v == "default" { (String::new(), String::new()) } else { (format!("_{}", v), format!(" [option variant {}]", v)) };
-                    // option variants only for the token/offset kinds
-                    if v != "default" && !(k == "c02" || k == "c01") {
+                    // option variants (C20): one harness per variant and rule, tokens if the grammar asks for them, offsets otherwise
+                    let is_variant = v != "default";
+                    if is_variant && k != &cfg.kinds[0] {
                         continue;
                     }
-                    let hname = format!("{}_g_{}{}_{}_{}", k, name, vtag, r.name, n);
-                    let (func, what) = match k.as_str() {
+                    let kk: String = if is_variant {
+                        if cfg.kinds.iter().any(|x| x == "c02") { "c02".into() } else { "c01".into() }
+                    } else {
+                        k.clone()
+                    };
+                    let known = cfg.known.iter().find(|(kv, kr, _)| kv == v && kr == &r.name);
+                    let hname = if is_variant {
+                        format!("c20_g_{}_{}_{}_{}", name, v, r.name, n)
+                    } else {
+                        format!("{}_g_{}_{}_{}", k, name, r.name, n)
+                    };
+                    let vdesc = if is_variant { format!(" [derive option variant {}]", v) } else { String::new() };
+                    let (func, what) = match kk.as_str() {
                         "c01" => ("g_check", "check-path offset == reference"),
                         "c03" => ("g_parse_check", "parse path == check path == reference (offset, stack)"),
                         "c02" => ("g_tokens", "parse; Pair token tree (rule, start, end, depth) == reference tree (pest's minus pruning under @/$)"),
+                        "c15" => ("g_children", "children() / as_token() / thin tokens == reference tree"),
                         "c04" => ("g_full", "try_parse_with / try_check_with Ok <=> reference: prefix, trailing skip unless atomic, end of input"),
                         other => panic!("unknown kind {}", other),
                     };
-                    let extra = match k.as_str() {
-                        "c02" => format!(", rid_{}", v),
+                    let extra = match kk.as_str() {
+                        "c02" | "c15" => format!(", rid_{}", v),
                         "c04" => format!(", {}", matches!(r.ty, RuleType::Atomic | RuleType::CompoundAtomic)),
                         _ => String::new(),
                     };
-                    writeln!(o, "    #[kani::unwind({uw})] fn {h}() [T0 S F] : \"{tier}|corpus grammar {g}, entry rule {r}{vdesc}: {what}; every input of {n} bytes over {alpha}\" {{\n        let buf = nd::ascii_buf::<{n}>(ALPHABET);\n        crate::grel::{func}::<typed_{v}::Rule, typed_{v}::rules::r#{r}<'_, 1>, reference::r_{r}<1>, {skt}{n}>(&buf{extra})\n    }}",
-                        uw = unwind, h = hname, tier = tier, g = name, r = r.name, vdesc = vdesc, what = what, n = n, alpha = format!("{:?}", cfg.alphabet).replace('"', "'").replace("\\", "/"), func = func, v = v, extra = extra, skt = if k == "c04" { "reference::SK, " } else { "" }).unwrap();
+                    let (t, kdesc) = match known {
+                        Some((_, _, id)) => ("K".to_string(), format!(" - twin of known finding {}, expected to FAIL", id)),
+                        None => (tier.to_string(), String::new()),
+                    };
+                    if known.is_some() && tier == "T" {
+                        continue;
+                    }
+                    writeln!(o, "    #[kani::unwind({uw})] fn {h}() [T0 S F] : \"{tier}|corpus grammar {g}, entry rule {r}{vdesc}: {what}; every input of {n} bytes over {alpha}{kdesc}\" {{\n        let buf = nd::ascii_buf::<{n}>(ALPHABET);\n        crate::grel::{func}::<typed_{v}::Rule, typed_{v}::rules::r#{r}<'_, 1>, reference::r_{r}<1>, {skt}{n}>(&buf{extra})\n    }}",
+                        uw = unwind, h = hname, tier = t, g = name, r = r.name, vdesc = vdesc, what = what, n = n,
+                        alpha = format!("{:?}", cfg.alphabet).replace('"', "'").replace("\\", "/"), kdesc = kdesc,
+                        func = func, v = v, extra = extra, skt = if kk == "c04" { "reference::SK, " } else { "" }).unwrap();
                 }
             }
         }
